@@ -843,7 +843,10 @@ class Optimizer(Logger, Citable):
 
         result_dict = {}
 
-        sorted_weights = weights.argsort()
+        # The gathered lists are ordered rank by rank; gather the sample
+        # indices the same way to put every entry back at its sample
+        all_index = np.array(mpi.allreduce(
+            list(range(rank, len_samples, num_procs)), op='SUM'), dtype=int)
 
         for param, (trace, w) in derived_param.items():
 
@@ -852,11 +855,9 @@ class Optimizer(Logger, Citable):
             # I cant remember why this works
             all_weight = np.array(mpi.allreduce(w, op='SUM'))
 
-            all_weight_sort = all_weight.argsort()
-
             # Sort them into the right order
-            all_weight[sorted_weights] = all_weight[all_weight_sort]
-            all_trace[sorted_weights] = all_trace[all_weight_sort]
+            all_weight[all_index] = all_weight.copy()
+            all_trace[all_index] = all_trace.copy()
 
             q_16, q_50, q_84 = \
                 quantile_corner(np.array(all_trace), [0.16, 0.5, 0.84],
